@@ -164,9 +164,9 @@ func cmdCheck(args []string) int {
 	}
 	if budget == 0 {
 		if cfg.tier == 0 {
-			budget = 240
+			budget = 900
 		} else {
-			budget = 1800
+			budget = 3600
 		}
 	}
 	deadlineAll := t0.Add(time.Duration(budget) * time.Second)
